@@ -5,6 +5,7 @@
 package abfth
 
 import (
+	"errors"
 	"fmt"
 	"sort"
 	"strings"
@@ -83,7 +84,7 @@ type Inst struct {
 	// listener policy of the application: mode 0 = ApplyEvent for every block, 1 = from the ListenN-th block of
 	// the instance's life on, 2 = for every other block (odd ones)
 	ListenMode, ListenN int
-	Flags               int // 1: nil EndBlock on non-sealing blocks; 2: one-byte HighestBefore/LowestAfter caches; 4: custom engine, no OnDropNotFlushed, no vector caches; 8: vecfc.DefaultConfig (production-size) caches
+	Flags               int // 1: nil EndBlock on non-sealing blocks; 2: one-byte HighestBefore/LowestAfter caches; 4: custom engine, no OnDropNotFlushed, no vector caches; 8: vecfc.DefaultConfig (production-size) caches; 16: name-keyed persistent epoch DB producer
 	totalBlocks         int
 	lastCrit string
 	keepIndex bool // the next mkLachesis reuses the application's DagIndexer object
@@ -99,7 +100,53 @@ func BuildVals(vw []VW) *pos.Validators {
 
 func (in *Inst) crit(err error) { panic(critPanic{err}) }
 
+// nameDB is a handle on a persistent, name-keyed database (memorydb.NewProducer / on-disk style): Close makes
+// the HANDLE unusable and leaves the data, Drop erases the data; opening the same name again gives a new handle
+// on the same data.
+type nameDB struct {
+	kvdb.Store
+	closed bool
+	drop   func()
+}
+
+var errClosed = errors.New("database closed")
+
+func (d *nameDB) Close() error { d.closed = true; return nil }
+func (d *nameDB) Drop()        { d.drop() }
+func (d *nameDB) Get(k []byte) ([]byte, error) {
+	if d.closed {
+		return nil, errClosed
+	}
+	return d.Store.Get(k)
+}
+func (d *nameDB) Has(k []byte) (bool, error) {
+	if d.closed {
+		return false, errClosed
+	}
+	return d.Store.Has(k)
+}
+func (d *nameDB) Put(k, v []byte) error {
+	if d.closed {
+		return errClosed
+	}
+	return d.Store.Put(k, v)
+}
+func (d *nameDB) Delete(k []byte) error {
+	if d.closed {
+		return errClosed
+	}
+	return d.Store.Delete(k)
+}
+
 func (in *Inst) getEpochDB(e idx.Epoch) kvdb.Store {
+	if in.Flags&16 != 0 { // ONE database per epoch name: an open of a name that exists returns its data
+		db, ok := in.epochDB[e]
+		if !ok {
+			db = memorydb.New()
+			in.epochDB[e] = db
+		}
+		return &nameDB{Store: db, drop: func() { delete(in.epochDB, e) }}
+	}
 	if in.reopen {
 		in.reopen = false
 		if db, ok := in.epochDB[e]; ok {
